@@ -7,6 +7,7 @@ CONSTANTS
   FirstSel = "four"
   CollectMode = "bound"
   FbMode = "faithful"
+  InlineHit = "identity"
 INIT Init
 NEXT Next
 INVARIANT PlainlyAccepted
